@@ -17,12 +17,17 @@ use crate::*;
 pub const CARRIER_NAMES: [&str; 10] =
     ["BumpScope", "&BumpScope", "&mut BumpScope", "WithoutDealloc<&BumpScope>", "WithoutShrink<&BumpScope>", "dyn BumpAllocatorCoreScope", "dyn MutBumpAllocatorCoreScope", "&Bump", "&mut Bump", "Bump"];
 pub const N_SCOPE_CARRIERS: usize = 7;
-pub const N_METHODS: usize = 19;
+pub const N_METHODS: usize = 24;
 pub const METHOD_NAMES: [&str; N_METHODS] = [
     "Allocator::allocate", "Allocator::allocate_zeroed", "try_allocate_layout", "allocate_layout", "try_allocate_slice", "allocate_slice", "allocate_slice_for",
     "try_alloc_slice_copy", "alloc_slice_copy", "alloc_slice_fill_with", "alloc_uninit_slice+init_copy", "prepare_slice_allocation+allocate_prepared_slice", "try_alloc",
     "alloc", "alloc_with", "try_allocate_sized", "allocate_sized", "alloc_uninit+init", "alloc_default",
+    "try_alloc_slice_clone", "alloc_slice_clone", "alloc_slice_move", "try_alloc_slice_move", "alloc_uninit_slice_for+init_copy",
 ];
+/// methods 12..=18 carry a single value; with `n != 1` they fold onto the slice methods 0..=11
+pub fn fold_method(m: usize, n: usize) -> usize {
+    if n != 1 && (12..19).contains(&m) { m % 12 } else { m }
+}
 
 #[derive(Clone, Copy, Debug)]
 pub struct Blk {
@@ -97,7 +102,7 @@ fn alloc_on<'a, B: BumpAllocatorTypedScope<'a> + ?Sized, T: Pod>(bump: &B, m: us
             p.add(i).write(*x);
         }
     };
-    let m = if n != 1 && m >= 12 { m % 12 } else { m };
+    let m = fold_method(m, n);
     let sz = layout.size();
     match m {
         0 => bump.allocate(layout).map(|p| (p.as_ptr() as *mut u8, p.len())).map_err(drop).map(|r| {
@@ -169,11 +174,16 @@ fn alloc_on<'a, B: BumpAllocatorTypedScope<'a> + ?Sized, T: Pod>(bump: &B, m: us
             Ok((p.cast(), sz))
         }
         17 => Ok((bump.alloc_uninit::<T>().init(T::make(seed, 0)).into_raw().as_ptr() as *mut u8, sz)),
-        _ => {
+        18 => {
             let p = bump.alloc_default::<T>().into_raw().as_ptr();
             write(p);
             Ok((p.cast(), sz))
         }
+        19 => bump.try_alloc_slice_clone(&src).map(|b| (b.into_raw().as_ptr() as *mut u8, sz)).map_err(drop),
+        20 => Ok((bump.alloc_slice_clone(&src).into_raw().as_ptr() as *mut u8, sz)),
+        21 => Ok((bump.alloc_slice_move(src.clone()).into_raw().as_ptr() as *mut u8, sz)),
+        22 => bump.try_alloc_slice_move(src.clone()).map(|b| (b.into_raw().as_ptr() as *mut u8, sz)).map_err(drop),
+        _ => Ok((bump.alloc_uninit_slice_for::<T>(&src).init_copy(&src).into_raw().as_ptr() as *mut u8, sz)),
     }
 }
 
@@ -427,12 +437,15 @@ where
                 let (ml, mr) = (op.a[4] as usize % N_METHODS, op.a[5] as usize % N_METHODS);
                 // prepare + commit is a request of its own kind (it may place the block differently from a plain
                 // allocation): it is only compared with itself through different carriers
-                let norm = |m: usize| if n != 1 && m >= 12 { m % 12 } else { m };
+                let norm = |m: usize| fold_method(m, n);
                 let (ml, mr) = if norm(ml) == 11 || norm(mr) == 11 { (11, 11) } else { (ml, mr) };
+                // `alloc_slice_move` builds its result through a `BumpVec` (an empty slice never touches the allocator,
+                // unlike a zero-sized layout request): the panicking method is compared with its try_ twin only
+                let (ml, mr) = if matches!(norm(ml), 21 | 22) || matches!(norm(mr), 21 | 22) { (21 + (ml & 1), 22 - (mr & 1)) } else { (ml, mr) };
                 let a = alloc_side(&mut l, cl, ml, ty, n, seed);
                 let b = alloc_side(&mut r, cr, mr, ty, n, seed);
-                what = format!("{} x{n} of type #{ty}: {} on {} vs {} on {}", OP_NAMES[op.kind as usize], METHOD_NAMES[if n != 1 && ml >= 12 { ml % 12 } else { ml }], carrier_name(root, cl), METHOD_NAMES[if n != 1 && mr >= 12 { mr % 12 } else { mr }], carrier_name(root, cr));
-                it.stats.bump(&format!("method.{}", METHOD_NAMES[if n != 1 && ml >= 12 { ml % 12 } else { ml }]));
+                what = format!("{} x{n} of type #{ty}: {} on {} vs {} on {}", OP_NAMES[op.kind as usize], METHOD_NAMES[fold_method(ml, n)], carrier_name(root, cl), METHOD_NAMES[fold_method(mr, n)], carrier_name(root, cr));
+                it.stats.bump(&format!("method.{}", METHOD_NAMES[fold_method(ml, n)]));
                 let align = [1usize, 2, 4, 8, 16, 1][ty as usize % 6];
                 compare_new(it, a, b, align, ty, n, &what);
             }
